@@ -95,7 +95,11 @@ type c05RetryTransport struct {
 	// afterFail: the health-check worker runs a pass (every backend passes its probe) once this
 	// attempt's failure has been recorded, i.e. during the try_interval sleep before the next Select
 	afterFail func(failsBefore int32)
-	start     *time.Time
+	// between: another request with a body of the same length and other content is proxied (by another proxy
+	// block of the same server, retries enabled, so it is buffered too) after this failed attempt has closed
+	// the request body and before the next attempt starts, i.e. during the try_interval wait
+	between func()
+	start   *time.Time
 	stamps *[]time.Duration
 	idx    int
 	script string
@@ -140,6 +144,14 @@ func (t *c05RetryTransport) RoundTrip(req *http.Request) (*http.Response, error)
 	*t.log = append(*t.log, fmt.Sprintf("%d:%s", t.idx, body))
 	if t.start != nil {
 		*t.stamps = append(*t.stamps, time.Since(*t.start))
+	}
+	// the RoundTripper contract, kept by http.Transport: the request body is closed after every attempt,
+	// a failed one included
+	if req.Body != nil {
+		req.Body.Close()
+	}
+	if o != 'K' && t.between != nil {
+		t.between()
 	}
 	switch o {
 	case 'K':
@@ -280,6 +292,8 @@ func c05RetryEvalAt(f []string, start *time.Time, stamps *[]time.Duration) (stri
 			env.events = append(env.events, ev)
 		}
 	}
+	between, stopOther := c05OtherRequest(body)
+	defer stopOther()
 	outAtArrival := make([]bool, len(hosts))
 	nOut := 0
 	for i, hs := range hosts {
@@ -310,7 +324,7 @@ func c05RetryEvalAt(f []string, start *time.Time, stamps *[]time.Duration) (stri
 			anyFail = true
 		}
 		host := pool[i]
-		pool[i].ReverseProxy.Transport = &c05RetryTransport{env: env, idx: i, script: p[2], want: body, mu: &mu, log: &log, start: start, stamps: stamps,
+		pool[i].ReverseProxy.Transport = &c05RetryTransport{env: env, idx: i, script: p[2], want: body, mu: &mu, log: &log, start: start, stamps: stamps, between: between,
 			afterFail: func(failsBefore int32) {
 				// wait until the loop has recorded the failure, then let the real health check run once
 				deadline := time.Now().Add(time.Second)
@@ -412,6 +426,46 @@ func c05RetryEvalAt(f []string, start *time.Time, stamps *[]time.Duration) (stri
 		tags = append(tags, "trivial-all-fine")
 	}
 	return out, tags
+}
+
+// c05OtherRequest sets up a second proxy block of the same server (one healthy backend, retries enabled) and
+// returns a function that sends one request through it whose body has the length of the case's body and the
+// complement of its content. What the proxy package shares between requests (package-level state) is shared
+// with the request under test; pools, policies and counters are not.
+func c05OtherRequest(body []byte) (func(), func()) {
+	if len(body) == 0 {
+		return nil, func() {}
+	}
+	ups, err := proxy.NewStaticUpstreams(casketfile.NewDispenser("Testfile", strings.NewReader(
+		"proxy /other other.test:80 other2.test:80 {\n try_duration 1000ms\n try_interval 1ms\n}\n")), "")
+	if err != nil || len(ups) != 1 || len(proxy.VerifHosts(ups[0])) != 2 {
+		return nil, func() {}
+	}
+	up := ups[0]
+	for _, h := range proxy.VerifHosts(up) {
+		h.ReverseProxy.Transport = c05OtherBackend{}
+	}
+	other := make([]byte, len(body))
+	for i := range body {
+		other[i] = ^body[i]
+	}
+	p := proxy.Proxy{Next: httpserver.EmptyNext, Upstreams: []proxy.Upstream{up}}
+	return func() {
+		req := httptest.NewRequest("POST", "http://front.test/other", bytes.NewReader(other))
+		req.RemoteAddr = "192.0.2.2:4000"
+		p.ServeHTTP(httptest.NewRecorder(), req)
+	}, func() { up.Stop() }
+}
+
+type c05OtherBackend struct{}
+
+func (c05OtherBackend) RoundTrip(req *http.Request) (*http.Response, error) {
+	if req.Body != nil {
+		io.Copy(io.Discard, req.Body)
+		req.Body.Close()
+	}
+	return &http.Response{StatusCode: 200, Proto: "HTTP/1.1", ProtoMajor: 1, ProtoMinor: 1, Header: http.Header{},
+		Body: io.NopCloser(strings.NewReader("ok")), ContentLength: 2, Request: req}, nil
 }
 
 // the health endpoint of every backend answers 200
